@@ -233,7 +233,7 @@ def rule_addr_model(rep: Report, repo: Repo) -> None:
     rep.check(fjc == ['binary_data.insert_fj_op'] and wfc == ['binary_data.insert_wflip_ops'], 'C02.ADDR-MODEL', 'emitter dispatch',
               f'FlipJump -> {fjc}; WordFlip -> {wfc} (exactly one inline op each, see C02.WFLIP-ONCE)', f'{ASM}:{lr.lineno}')
     # Padding
-    al = repo.func(PRE, 'PreprocessorData.align_current_address')
+    al = expand_private_calls(repo, PRE, repo.func(PRE, 'PreprocessorData.align_current_address'), 'PreprocessorData')      # a private `_move_to(address)` reads as the store it makes
     # the pad amount is the least n >= 0 with (k + n) a multiple of the alignment, k = current op index: the assigned expression is
     # folded for k = 0..47 and every alignment 1..17 (not only powers of two) at two widths
     pad_expr = [st.value for st in al.body if isinstance(st, ast.Assign) and norm(st.targets[0]) == 'ops_to_pad']
@@ -274,7 +274,7 @@ def rule_addr_model(rep: Report, repo: Repo) -> None:
               f'+{asm_pad} for insert_padding({pad_call}); Padding stores ops_count={stored}', f'{ASM}:{ip.lineno}',
               expected='the same product with the same operand')
     # NewSegment
-    ins = repo.func(PRE, 'PreprocessorData.insert_segment')
+    ins = expand_private_calls(repo, PRE, repo.func(PRE, 'PreprocessorData.insert_segment'), 'PreprocessorData')
     pre_seg = [norm(v) for op, v in _self_updates(ins, 'curr_address') if op == '=']
     seg_arg = [norm(c.args[0]) for c in calls(ins) if dotted(c.func) == 'NewSegment']
     ns = repo.func(ASM, 'BinaryData.insert_new_segment')
@@ -468,7 +468,20 @@ def rule_paired(rep: Report, repo: Repo) -> None:
     d_names = [norm(s.targets[0]) for s in ast.walk(seg) if isinstance(s, ast.Assign) and isinstance(s.value, ast.Call)
                and dotted(s.value.func) == 'fjm_writer.add_data']
     dn = d_names[0] if d_names else '?'
-    rep.check(w_args == [['first_address // memory_width', '(last_address - first_address) // memory_width', dn, 'len(fj_words + wflip_words)']]
+    # start and length are FOLDED on a grid (named / tuple-unpacked intermediates read through), the two data arguments compared as written
+    from ..pyfacts import read_through_locals as _rtl
+    seg2 = _rtl(seg)
+    w_calls2 = [c for c in calls(seg2) if dotted(c.func) == 'fjm_writer.add_segment']
+    place_ok = len(w_calls2) == 1 and len(w_calls2[0].args) == 4
+    if place_ok:
+        for fa, la, wv in ((0, 64, 8), (128, 128, 16), (64, 640, 32), (1 << 20, (1 << 20) + 128, 64)):
+            try:
+                got = (eval_int_expr(w_calls2[0].args[0], {'first_address': fa, 'last_address': la, 'memory_width': wv}),
+                       eval_int_expr(w_calls2[0].args[1], {'first_address': fa, 'last_address': la, 'memory_width': wv}))
+            except AnalysisError:
+                got = None
+            place_ok = place_ok and got == (fa // wv, (la - fa) // wv)
+    rep.check(place_ok and len(w_args) == 1 and w_args[0][2:] == [dn, 'len(fj_words + wflip_words)']
               and d_args == [['fj_words + wflip_words']],
               'C02.PAIRED-UPDATE', 'add_segment_to_fjm', f'add_data{d_args} add_segment{w_args}', f'{ASM}:{seg.lineno}',
               expected='start = first // w, length = (last - first) // w, data = fj_words + wflip_words and its length')
